@@ -266,17 +266,6 @@ func initFmtExternals() {
 			}
 			return strconv.FormatFloat(f, byte(asInt64(a[1])), int(asInt64(a[2])), int(asInt64(a[3])))
 		},
-		"strconv.ParseFloat": func(fr *frame, a []value) value {
-			s, ok := a[0].(string)
-			if !ok {
-				panic(abort{kind: "inconclusive", msg: "strconv.ParseFloat on symbolic string"})
-			}
-			f, err := strconv.ParseFloat(s, int(asInt64(a[1])))
-			if err != nil {
-				return tuple{f, fr.i.newError(fr, err.Error())}
-			}
-			return tuple{f, iface{}}
-		},
 		"errors.Is":     extErrorsIs,
 		"errors.As":     func(fr *frame, a []value) value { panic(abort{kind: "unsupported", msg: "errors.As"}) },
 		"errors.Unwrap": func(fr *frame, a []value) value { return fr.i.unwrap(fr, a[0].(iface)) },
